@@ -462,7 +462,33 @@ def gen_sequence(rng, profile=None, maxlen=None):
     sid = rng.choice([b"SID-1", b"sess\x00\x01\xfe", bytes(rng.randrange(256) for _ in range(rng.choice([8, 20, 32])))])
     n = maxlen or (rng.randrange(10, 19) if profile == "brute" else rng.randrange(1, 12))
     main_user = rng.choice([b"alice", b"alice", b"bob", "éve".encode("utf-8")])
-    return profile, sid, [gen_step(rng, sid, profile, main_user) for _ in range(n)]
+    steps = []
+    while len(steps) < n:
+        st = gen_step(rng, sid, profile, main_user)
+        steps.append(st)
+        info = st[4]
+        # a publickey probe / attempt is followed up for the SAME user and key with a fresh callback answer
+        if info.get("kind") == "publickey" and info.get("keyok") and rng.random() < 0.6:
+            for _ in range(rng.choice([1, 1, 2])):
+                steps.append(follow_up(rng, sid, profile, info))
+    return profile, sid, steps
+
+
+def follow_up(rng, sid, profile, info):
+    """Second request about the same (user, service, algorithm, key): signed with a valid signature (mostly) or a probe,
+    with an independently drawn callback result."""
+    env = dict(gen_env(rng, "lenient" if rng.random() < 0.7 else profile), keyok=True, bits=info["bits"])
+    user, service, alg, keyblob, bits = info["user"], info["service"], info["alg"], info["keyblob"], info["bits"]
+    attached = rng.random() < 0.8
+    variant = "valid" if rng.random() < 0.8 else "garbage"
+    sig = toy_sign(alg, bits, my_blob(sid, user, service, alg, bits)) if variant == "valid" else s_(alg) + s_(b"zzzz")
+    if not attached:
+        sig = b""
+    payload = s_(user) + s_(service) + s_(b"publickey") + bytes([1 if attached else 0]) + s_(alg) + s_(keyblob) \
+        + (s_(sig) if attached else b"")
+    info2 = {"kind": "publickey", "user": user, "service": service, "attached": attached, "variant": "follow-up-" + variant,
+             "alg": alg, "keyblob": keyblob, "sig": sig, "bits": bits, "keyok": True}
+    return 50, payload, env, ("Msg50", user, service, ("BPublickey", attached, alg, keyblob, sig)), info2
 
 
 def drive(World, holder, sid, steps, on_step=None, gate=True):
@@ -829,6 +855,41 @@ def pin_witness(ctx):
                          observed={"authenticated_as": who, "asked": asked})
 
 
+def probe_witness(ctx):
+    """Probe (PK_OK query) then the signed follow-up for the same key, the application answering differently the second
+    time: only the answer given for the signed request counts, and the application must be asked again."""
+    World, _, _ = make_world()
+    holder = {}
+    sid, user, service, alg, keyblob = b"SID-q", b"alice", b"ssh-connection", b"toy-a", b"key1"
+    bits = toy_bits(keyblob)
+    base = {"gss": False, "mechok": True, "tok": 1, "micok": True, "kexctx": False, "banner": False,
+            "keyok": True, "bits": bits}
+    head = s_(user) + s_(service) + s_(b"publickey")
+    probe = head + b"\x00" + s_(alg) + s_(keyblob)
+    signed = head + b"\x01" + s_(alg) + s_(keyblob) + s_(toy_sign(alg, bits, my_blob(sid, user, service, alg, bits)))
+    with gss_patch(holder):
+        for r1 in (0, 1):
+            for r2 in (0, 1, 2):
+                for twice in (False, True):
+                    steps = [(50, probe, dict(base, res=r1), None, {}), (50, signed, dict(base, res=r2), None, {})]
+                    if twice:       # and once more on the same object
+                        steps.append((50, signed, dict(base, res=2), None, {}))
+                    w = World(sid)
+                    holder["world"] = w
+                    traces = [list(w.deliver(*st[:3])) for st in steps]
+                    ctx.count(("probe-witness", r1, r2, twice), kind="probe-witness")
+                    got = w.handler.authenticated
+                    asked = [len([ev for ev in tr if ev[0] == "cb"]) for tr in traces]
+                    want = r2 == 0
+                    if got != want or (asked[1] != 1):
+                        ctx.fail("stale-approval-reused" if got and not want else
+                                 "callback-skipped" if asked[1] != 1 else "valid-signature-rejected",
+                                 "publickey probe answered %s, signed follow-up answered %s: authenticated=%r (must be %r), "
+                                 "check_auth_publickey calls per step %r" % (RES[r1], RES[r2], got, want, asked),
+                                 case=case_repr(sid, steps), expected="authenticated == %r, one callback per request" % want,
+                                 observed=repr(traces[1]))
+
+
 def gss_witness(ctx):
     """Deterministic grid over the gssapi paths: callback result x MIC valid x context present x
     accept_sec_context outcome.  Authenticated iff the callback approves AND the proof is valid."""
@@ -897,6 +958,7 @@ def run(ctx):
     gss_witness(ctx)
     sig_witness(ctx)
     pin_witness(ctx)
+    probe_witness(ctx)
     unbound = run_sequences(ctx, 160 * scale, c14_oracle, "seq")
     blob_cases(ctx, 80 * scale)
     n = real_key_cases(ctx)
@@ -929,7 +991,11 @@ def replay(ctx, rep):
             cbs = [ev for ev in tr if ev[0] == "cb"]
             last_cb = cbs[-1] if cbs else last_cb
             succ = succ or w.handler.authenticated or b"\x34" in sends(tr)
-        # every recorded failing input of this property is one that must NOT authenticate
+        if rep["key"] == "callback-skipped":
+            if succ and not cbs:
+                ctx.fail(rep["key"], rep["what"], case=case, expected=rep.get("expected"), observed="SUCCESS without callback")
+            return
+        # every other recorded failing input of this property is one that must NOT authenticate
         if succ and rep["key"] != "valid-gss-rejected" and rep["key"] != "valid-signature-rejected":
             ctx.fail(rep["key"], rep["what"], case=case, expected=rep.get("expected"), observed=repr(last_cb))
         if not succ and rep["key"] in ("valid-gss-rejected", "valid-signature-rejected"):
